@@ -35,6 +35,22 @@ pub uninterp spec fn fmin(a: f64, b: f64) -> f64;
 pub uninterp spec fn fmax(a: f64, b: f64) -> f64;
 pub assume_specification [f64::min] (a: f64, b: f64) -> (r: f64) ensures r == fmin(a, b);
 pub assume_specification [f64::max] (a: f64, b: f64) -> (r: f64) ensures r == fmax(a, b);
+// float constants (rule R12c): Verus has no model of core::f64 associated consts; each is an
+// uninterpreted spec constant, distinct names so that swapping two of them is visible.
+pub uninterp spec fn spec_f64_max() -> f64;
+pub uninterp spec fn spec_f64_min() -> f64;
+pub uninterp spec fn spec_f64_min_positive() -> f64;
+pub uninterp spec fn spec_f64_nan() -> f64;
+pub uninterp spec fn spec_f64_infinity() -> f64;
+pub uninterp spec fn spec_f64_neg_infinity() -> f64;
+pub uninterp spec fn spec_f64_epsilon() -> f64;
+#[verifier::external_body] pub fn fconst_f64_max() -> (r: f64) ensures r == spec_f64_max() { f64::MAX }
+#[verifier::external_body] pub fn fconst_f64_min() -> (r: f64) ensures r == spec_f64_min() { f64::MIN }
+#[verifier::external_body] pub fn fconst_f64_min_positive() -> (r: f64) ensures r == spec_f64_min_positive() { f64::MIN_POSITIVE }
+#[verifier::external_body] pub fn fconst_f64_nan() -> (r: f64) ensures r == spec_f64_nan() { f64::NAN }
+#[verifier::external_body] pub fn fconst_f64_infinity() -> (r: f64) ensures r == spec_f64_infinity() { f64::INFINITY }
+#[verifier::external_body] pub fn fconst_f64_neg_infinity() -> (r: f64) ensures r == spec_f64_neg_infinity() { f64::NEG_INFINITY }
+#[verifier::external_body] pub fn fconst_f64_epsilon() -> (r: f64) ensures r == spec_f64_epsilon() { f64::EPSILON }
 
 #[derive(Copy, Clone)]
 pub struct Summary {
@@ -295,7 +311,8 @@ proof fn lemma_close_live(c: Seq<ZoomRecord>, l: ZoomRecord, h: Seq<Value>, cs: 
 }
 /// what one tiling step does to the open record, transcribed as a relation:
 /// `base` = the open record or a fresh one at a0; a1 = min(base.start+size, ce);
-/// if a1 >= a0 the record is extended to a1 and gains a1-a0 bases.
+/// if a1 > a0 the record is extended to a1 and gains a1-a0 bases; otherwise it is left alone
+/// (C07: a record's statistics are those of the values INSIDE its span).
 spec fn step_rel(live0: Option<ZoomRecord>, l1: ZoomRecord, a0: int, a1: int, ce: int, size: int, chrom: u32) -> bool {
     let fresh = live0.is_none();
     let bs = if fresh { a0 } else { live0.unwrap().start as int };
@@ -305,8 +322,8 @@ spec fn step_rel(live0: Option<ZoomRecord>, l1: ZoomRecord, a0: int, a1: int, ce
     &&& a1 == imin(bs + size, ce)
     &&& l1.start == bs
     &&& l1.chrom == bch
-    &&& (a1 >= a0 ==> l1.end == a1 && l1.summary.bases_covered as int == bbc + (a1 - a0))
-    &&& (a1 < a0 ==> l1.end == be && l1.summary.bases_covered as int == bbc)
+    &&& (a1 > a0 ==> l1.end == a1 && l1.summary.bases_covered as int == bbc + (a1 - a0))
+    &&& (a1 <= a0 ==> l1.end == be && l1.summary.bases_covered as int == bbc)
 }
 proof fn lemma_step(c: Seq<ZoomRecord>, live0: Option<ZoomRecord>, l1: ZoomRecord, h: Seq<Value>, cs: int, a0: int, a1: int, ce: int, size: u32, chrom: u32, ib: int)
     requires
@@ -332,7 +349,7 @@ proof fn lemma_step(c: Seq<ZoomRecord>, live0: Option<ZoomRecord>, l1: ZoomRecor
         lemma_cov_zero_after(h, a0, a1, cs);
     } else {
         let l0 = live0.unwrap();
-        if a1 >= a0 {
+        if a1 > a0 {
             lemma_cov_extend(h, l0.start as int, l0.end as int, a1, l0.end as int);
         }
     }
@@ -475,14 +492,21 @@ fn process_val_zoom__level(zoom_item: &mut ZoomItem, options: &BBIWriteOptions, 
             let next_end = zoom2.start + zoom_item.size;
             // End of bases that we could add
             let add_end = min_u32(next_end, current_val.end);
-            // If the last zoom ends before this value starts, we don't add anything
+            // If the last zoom ends before (or exactly where) this value starts, we don't add anything
 
+            proof {
+                // C07: a record's min/max/sum are those of the values inside it: a record opened by this value starts from it
+                if live0.is_none() {
+                    assert(zoom2.summary.min_val == f64::from_spec(current_val.value) && zoom2.summary.max_val == f64::from_spec(current_val.value)); 
+                    assert(zoom2.summary.bases_covered == 0 && zoom2.summary.total_items == 0 && zoom2.start == add_start && zoom2.end == add_start && zoom2.chrom == chrom_id); 
+                }
+            }
             let ghost sum0 = zoom2.summary.sum;
             let ghost ssq0 = zoom2.summary.sum_squares;
             let ghost min0 = zoom2.summary.min_val;
             let ghost max0 = zoom2.summary.max_val;
             let ghost items0 = zoom2.summary.total_items;
-            if add_end >= add_start {
+            if add_end > add_start {
                 let added_bases = add_end - add_start;
                 zoom2.end = add_end;
                 zoom2.summary.total_items = zoom2.summary.total_items + (1);
@@ -496,6 +520,7 @@ fn process_val_zoom__level(zoom_item: &mut ZoomItem, options: &BBIWriteOptions, 
                     // float fields: shape pinned over uninterpreted float operators (C07 "sum, sum of squares, min, max")
                     let w = f64::from_spec((add_end - add_start) as u32);
                     let x = f64::from_spec(current_val.value);
+                    assert(add_end > add_start); 
                     assert(zoom2.summary.sum == sum0.add_spec(w.mul_spec(x))); 
                     assert(zoom2.summary.sum_squares == ssq0.add_spec(w.mul_spec(x).mul_spec(x))); 
                     assert(zoom2.summary.min_val == fmin(min0, x)); 
